@@ -120,11 +120,9 @@ impl Board {
 
 impl MoveGen {
     pub fn is_empty(&self) -> bool {
-        if let [legals, ..] = &self.moves[self.index..] {
-            return (legals.moves & self.mask).none();
-        }
-
-        true
+        self.moves[self.index..]
+            .iter()
+            .all(|legals| (legals.moves & self.mask).none())
     }
 
     pub fn len(&self) -> usize {
@@ -132,13 +130,19 @@ impl MoveGen {
 
         let mut len = 0;
 
+        // promotion choices already yielded for the destination the iterator is working on
+        let mut consumed = NUM_PROMOTION_PIECES - self.promotions.len();
+
         for legals in &self.moves[self.index..] {
-            if (legals.moves & self.mask).none() {
-                break;
-            }
+            // an entry can be empty under the mask (e.g. after `remove`); the ones behind it still count
             let count = (legals.moves & self.mask).count() as usize;
+            if count == 0 {
+                continue;
+            }
             len += if legals.promotion {
-                count * NUM_PROMOTION_PIECES
+                let remaining = count * NUM_PROMOTION_PIECES - consumed;
+                consumed = 0;
+                remaining
             } else {
                 count
             };
@@ -156,13 +160,15 @@ impl MoveGen {
 
     /// Never, ever, iterate this move
     pub fn remove_move(&mut self, chess_move: ChessMove) -> bool {
+        // a pawn that can also capture en passant has two entries
+        let mut found = false;
         for x in 0..self.moves.len() {
             if self.moves[x].src == chess_move.source {
                 self.moves[x].moves -= chess_move.dest;
-                return true;
+                found = true;
             }
         }
-        false
+        found
     }
 
     pub fn set_mask(&mut self, mask: BitBoard) {
@@ -198,16 +204,17 @@ impl Iterator for MoveGen {
     type Item = ChessMove;
 
     fn next(&mut self) -> Option<Self::Item> {
+        // skip the entries that have nothing (left) under the current mask
+        while self.index < self.moves.len() && (self.moves[self.index].moves & self.mask).none() {
+            self.index += 1;
+        }
+
         let legals = &mut self.moves[..];
         if self.index >= legals.len() {
             return None;
         }
 
         let legal = &mut legals[self.index];
-
-        if (legal.moves & self.mask).none() {
-            return None;
-        }
 
         if legal.promotion {
             let &promotion = self.promotions.next().unwrap();
